@@ -23,7 +23,7 @@ def f(lo, hi):
 
 
 @st.composite
-def ecc(draw, elliptic=True, hyperbolic=True, emax_ell=0.99, emax_hyp=20.0):
+def ecc(draw, elliptic=True, hyperbolic=True, emax_ell=0.99, emax_hyp=20.0, emin_hyp=1.001):
     branches = []
     if elliptic:
         branches += ["tiny", "ell", "ell"]
@@ -35,7 +35,7 @@ def ecc(draw, elliptic=True, hyperbolic=True, emax_ell=0.99, emax_hyp=20.0):
     if b == "ell":
         return draw(f(0.1, emax_ell))
     if b == "h1":
-        return draw(f(1.001, min(1.6, emax_hyp)))
+        return draw(f(emin_hyp, min(1.6, emax_hyp)))
     if b == "h2":
         return draw(f(1.6, min(3.6, emax_hyp)))
     return draw(f(3.6, emax_hyp))
@@ -43,10 +43,10 @@ def ecc(draw, elliptic=True, hyperbolic=True, emax_ell=0.99, emax_hyp=20.0):
 
 @st.composite
 def elements(draw, elliptic=True, hyperbolic=True, bodies=("Earth",), emax_ell=0.99,
-             emax_hyp=20.0, rp_range=(1.03, 50.0), hmax=8.0, mwind=2.0):
+             emax_hyp=20.0, rp_range=(1.03, 50.0), hmax=8.0, mwind=2.0, emin_hyp=1.001):
     """dict(body, mu, a, e, i, raan, argp, anom, nu) ; anom = M (elliptic, unbounded) or H."""
     body = draw(st.sampled_from(bodies))
-    e = draw(ecc(elliptic, hyperbolic, emax_ell, emax_hyp))
+    e = draw(ecc(elliptic, hyperbolic, emax_ell, emax_hyp, emin_hyp))
     rp = RADIUS[body] * draw(f(*rp_range))
     a = rp / (1 - e)
     retro = draw(st.integers(0, 9)) < 3
@@ -64,3 +64,28 @@ def elements(draw, elliptic=True, hyperbolic=True, bodies=("Earth",), emax_ell=0
 
 def cart_of(el):
     return tb.kep2cart(el["a"], el["e"], el["i"], el["raan"], el["argp"], el["nu"], MU[el["body"]])
+
+
+def MU_LIB(body="Earth"):
+    """mu as the library defines it (mass * G)."""
+    from beyond import constants
+
+    return getattr(constants, body).mu
+
+
+# Hypothesis draws wide integer ranges (and, less so, floats) heavily biased towards small
+# magnitudes: st.integers(0, 10**9) puts ~93 % of its mass below 10**8.  Ranges <= 1000 are uniform.
+@st.composite
+def unit(draw):
+    """Uniform on [0, 1) on a 1e-9 grid (three uniform 3-digit draws)."""
+    return (draw(st.integers(0, 999)) * 10**6 + draw(st.integers(0, 999)) * 1000
+            + draw(st.integers(0, 999))) / 1e9
+
+
+def uniform(lo, hi):
+    return unit().map(lambda u: lo + (hi - lo) * u)
+
+
+def uniform_int(lo, hi):
+    """Uniform integer in [lo, hi] (any width)."""
+    return unit().map(lambda u: lo + int(u * (hi - lo + 1)))
